@@ -9,6 +9,12 @@
 //	q:<hex name>:<hex value>*   request header lines, in order
 //	st<status>  s:<hex name>:<hex value>*   response status and header lines
 //
+//	CON V.. A.. L.. O.. (M q:..* st.. s:..*)+   a batch of messages (>= 8 when generated) sent CONCURRENTLY, each by
+//	     its own goroutine and for several rounds, through ONE httpspec.NewStack instance (requests and responses),
+//	     as connections of one proxy share the stack.  OUT: the table, then per message `M <DIR-style tokens>` and,
+//	     for every round whose result differed from an earlier one, `ALT <tokens>`: every alternative is judged with
+//	     the sequential oracle (the modifiers are pure per message: theorem C14_output_independent_of_other_messages).
+//
 // The literal text "martian-SELF" inside header values stands for
 // "<requestedBy>-<boundary>" of the ViaModifier inside the stack under test
 // (the boundary is random per stack); "origin.test" inside L stands for the
@@ -64,6 +70,13 @@ type input struct {
 	req      []line
 	status   int
 	res      []line
+	batch    []msg // CON only
+}
+
+type msg struct {
+	req    []line
+	status int
+	res    []line
 }
 
 func parseIn(in []string) (*input, error) {
@@ -73,6 +86,12 @@ func parseIn(in []string) (*input, error) {
 	c := &input{kind: in[0], status: 200}
 	for _, t := range in[1:] {
 		switch {
+		case t == "M":
+			if len(c.batch) > 0 {
+				c.batch[len(c.batch)-1] = msg{c.req, c.status, c.res}
+			}
+			c.batch = append(c.batch, msg{})
+			c.req, c.res, c.status = nil, nil, 200
 		case strings.HasPrefix(t, "V"):
 			p := strings.SplitN(t[1:], ".", 2)
 			if len(p) != 2 {
@@ -103,18 +122,35 @@ func parseIn(in []string) (*input, error) {
 			return nil, fmt.Errorf("bad token %q", t)
 		}
 	}
+	if len(c.batch) > 0 {
+		c.batch[len(c.batch)-1] = msg{c.req, c.status, c.res}
+		c.req, c.res = nil, nil
+	}
+	if c.kind == "CON" && len(c.batch) == 0 {
+		return nil, fmt.Errorf("CON without messages")
+	}
 	return c, nil
 }
 
 func (c *input) tokens() []string {
 	t := []string{c.kind, fmt.Sprintf("V%d.%d", c.maj, c.min), "A" + hx.HexS(c.remote), "L" + hx.HexS(c.rawurl), "O" + hx.HexS(c.host)}
-	for _, l := range c.req {
-		t = append(t, "q:"+hx.HexS(l.k)+":"+hx.HexS(l.v))
+	one := func(req []line, status int, res []line) {
+		for _, l := range req {
+			t = append(t, "q:"+hx.HexS(l.k)+":"+hx.HexS(l.v))
+		}
+		t = append(t, fmt.Sprintf("st%d", status))
+		for _, l := range res {
+			t = append(t, "s:"+hx.HexS(l.k)+":"+hx.HexS(l.v))
+		}
 	}
-	t = append(t, fmt.Sprintf("st%d", c.status))
-	for _, l := range c.res {
-		t = append(t, "s:"+hx.HexS(l.k)+":"+hx.HexS(l.v))
+	if c.kind == "CON" {
+		for _, m := range c.batch {
+			t = append(t, "M")
+			one(m.req, m.status, m.res)
+		}
+		return t
 	}
+	one(c.req, c.status, c.res)
 	return t
 }
 
@@ -167,10 +203,12 @@ type stackUnderTest struct {
 	tag              string
 	mu               sync.Mutex
 	innerReq, innerR int
+	sawReq, sawRes   map[*http.Request]bool
+	direct           bool // attribute inner-group calls to requests (direct calls only)
 }
 
 func newStack() (*stackUnderTest, error) {
-	s := &stackUnderTest{}
+	s := &stackUnderTest{sawReq: map[*http.Request]bool{}, sawRes: map[*http.Request]bool{}}
 	outer, inner := httpspec.NewStack("martian")
 	s.outer = outer
 	// learn "<requestedBy>-<boundary>" from a probe request (inner hooks added afterwards)
@@ -192,19 +230,35 @@ func newStack() (*stackUnderTest, error) {
 			s.tag = p[1]
 		}
 	}
-	inner.AddRequestModifier(martian.RequestModifierFunc(func(*http.Request) error {
+	inner.AddRequestModifier(martian.RequestModifierFunc(func(r *http.Request) error {
 		s.mu.Lock()
 		s.innerReq++
+		if s.direct {
+			s.sawReq[r] = true
+		}
 		s.mu.Unlock()
 		return nil
 	}))
-	inner.AddResponseModifier(martian.ResponseModifierFunc(func(*http.Response) error {
+	inner.AddResponseModifier(martian.ResponseModifierFunc(func(r *http.Response) error {
 		s.mu.Lock()
 		s.innerR++
+		if s.direct {
+			s.sawRes[r.Request] = true
+		}
 		s.mu.Unlock()
 		return nil
 	}))
 	return s, nil
+}
+
+// saw reports (and forgets) whether the inner group saw this request / its response.
+func (s *stackUnderTest) saw(r *http.Request) (bool, bool) {
+	s.mu.Lock()
+	defer s.mu.Unlock()
+	a, b := s.sawReq[r], s.sawRes[r]
+	delete(s.sawReq, r)
+	delete(s.sawRes, r)
+	return a, b
 }
 
 func (s *stackUnderTest) counts() (int, int) {
@@ -216,21 +270,13 @@ func (s *stackUnderTest) counts() (int, int) {
 func (s *stackUnderTest) in(v string) string  { return strings.ReplaceAll(v, selfPlaceholder, s.tag) }
 func (s *stackUnderTest) out(v string) string { return strings.ReplaceAll(v, s.tag, selfPlaceholder) }
 
-func runDirect(c *input) (out []string) {
+// oneDirect sends one message (request, then response) through the stack by direct calls.
+func oneDirect(s *stackUnderTest, c *input, u *url.URL) (out []string) {
 	defer func() {
 		if r := recover(); r != nil {
 			out = []string{"PANIC"}
 		}
 	}()
-	u, err := url.Parse(c.rawurl)
-	if err != nil {
-		return []string{"BADURL"}
-	}
-	s, err := newStack()
-	if err != nil {
-		return []string{"IOERR:probe"}
-	}
-	out = table(c.remote, u, c.host)
 	req := &http.Request{Method: "GET", URL: u, Host: c.host, Header: http.Header{},
 		Proto: fmt.Sprintf("HTTP/%d.%d", c.maj, c.min), ProtoMajor: c.maj, ProtoMinor: c.min,
 		RemoteAddr: c.remote, Body: http.NoBody}
@@ -243,18 +289,108 @@ func runDirect(c *input) (out []string) {
 	}
 	defer remove()
 	merr := s.outer.ModifyRequest(req)
-	ir, _ := s.counts()
-	out = append(out, "E"+errClass(merr), "K"+b01(ctx.SkippingRoundTrip()), "I"+b01(ir > 0))
-	out = append(out, hdrTokens("h:", req.Header, s.out)...)
+	skip := ctx.SkippingRoundTrip()
+	reqTokens := hdrTokens("h:", req.Header, s.out)
 
 	res := proxyutil.NewResponse(c.status, nil, req)
 	for _, l := range c.res {
 		res.Header.Add(l.k, s.in(l.v))
 	}
 	rerr := s.outer.ModifyResponse(res)
-	_, irs := s.counts()
-	out = append(out, fmt.Sprintf("RS%d", res.StatusCode), "RE"+b01(rerr != nil), "RI"+b01(irs > 0))
+	ir, irs := s.saw(req)
+	out = append(out, "E"+errClass(merr), "K"+b01(skip), "I"+b01(ir))
+	out = append(out, reqTokens...)
+	out = append(out, fmt.Sprintf("RS%d", res.StatusCode), "RE"+b01(rerr != nil), "RI"+b01(irs))
 	out = append(out, hdrTokens("r:", res.Header, s.out)...)
+	return out
+}
+
+func runDirect(c *input) []string {
+	u, err := url.Parse(c.rawurl)
+	if err != nil {
+		return []string{"BADURL"}
+	}
+	s, err := newStack()
+	if err != nil {
+		return []string{"IOERR:probe"}
+	}
+	s.direct = true
+	return append(table(c.remote, u, c.host), oneDirect(s, c, u)...)
+}
+
+// barrier is a reusable n-party barrier.
+type barrier struct {
+	mu    sync.Mutex
+	n, in int
+	ch    chan struct{}
+}
+
+func (b *barrier) wait() {
+	b.mu.Lock()
+	b.in++
+	if b.in == b.n {
+		b.in = 0
+		close(b.ch)
+		b.ch = make(chan struct{})
+		b.mu.Unlock()
+		return
+	}
+	ch := b.ch
+	b.mu.Unlock()
+	<-ch
+}
+
+// runConcurrent sends every message of the batch through ONE stack at the same
+// time (one goroutine per message, a barrier before every round).
+func runConcurrent(c *input, rounds int) []string {
+	u, err := url.Parse(c.rawurl)
+	if err != nil {
+		return []string{"BADURL"}
+	}
+	s, err := newStack()
+	if err != nil {
+		return []string{"IOERR:probe"}
+	}
+	s.direct = true
+	n := len(c.batch)
+	alts := make([][][]string, n)
+	var wg sync.WaitGroup
+	bar := &barrier{n: n, ch: make(chan struct{})}
+	for i := 0; i < n; i++ {
+		wg.Add(1)
+		go func(i int) {
+			defer wg.Done()
+			m := *c
+			m.req, m.res, m.status = c.batch[i].req, c.batch[i].res, c.batch[i].status
+			for r := 0; r < rounds; r++ {
+				bar.wait()
+				o := oneDirect(s, &m, u)
+				key := strings.Join(o, " ")
+				dup := false
+				for _, a := range alts[i] {
+					if strings.Join(a, " ") == key {
+						dup = true
+						break
+					}
+				}
+				if !dup && len(alts[i]) < 4 {
+					alts[i] = append(alts[i], o)
+				}
+			}
+		}(i)
+	}
+	wg.Wait()
+	out := table(c.remote, u, c.host)
+	for i := 0; i < n; i++ {
+		for j, a := range alts[i] {
+			if j == 0 {
+				out = append(out, "M")
+			} else {
+				out = append(out, "ALT")
+			}
+			out = append(out, a...)
+		}
+	}
 	return out
 }
 
@@ -818,6 +954,50 @@ func genCase(r *hx.RNG, cfg *hx.Config, kind string) *input {
 	return c
 }
 
+// genBatch: n messages for one stack.  Message i names its own header
+// X-Hop-<i> (and a few others) in Connection and carries the names the OTHER
+// messages list as plain end-to-end headers, so that tokens leaking between
+// concurrently processed messages show as a surviving hop-by-hop header or a
+// deleted end-to-end one.
+func genBatch(r *hx.RNG, cfg *hx.Config) *input {
+	c := genCase(r, cfg, "DIR")
+	c.kind = "CON"
+	n := r.Range(8, 12)
+	for i := 0; i < n; i++ {
+		m := msg{status: []int{200, 404, 500}[r.Intn(3)]}
+		both := func(ls []line) []line {
+			own := fmt.Sprintf("X-Hop-%d", i)
+			toks := []string{oddCase(r, own)}
+			ls = append(ls, line{oddCase(r, own), "hop"})
+			for j, k := 0, r.Intn(4); j < k; j++ {
+				t := fmt.Sprintf("X-Hop-%d-%d", i, j)
+				toks = append(toks, oddCase(r, t))
+				if r.Bool() {
+					ls = append(ls, line{t, "hop"})
+				}
+			}
+			ls = append(ls, spread(r, oddCase(r, "Connection"), toks, true)...)
+			for j := 0; j < n; j++ {
+				if j != i && r.Chance(2, 3) {
+					ls = append(ls, line{fmt.Sprintf("X-Hop-%d", j), "end-to-end"})
+				}
+			}
+			return shuffle(r, ls)
+		}
+		if r.Chance(1, 3) {
+			m.req = both(genLines(r, cfg, genOpts{}))
+		} else {
+			m.req = both([]line{{"Accept", "*/*"}, {"Via", fmt.Sprintf("1.1 hop%d", i)}})
+		}
+		m.res = both([]line{{"Etag", fmt.Sprintf("e%d", i)}})
+		c.batch = append(c.batch, m)
+	}
+	c.req, c.res = nil, nil
+	cfg.Count("kind=CON")
+	cfg.Count(fmt.Sprintf("con-messages=%d", n))
+	return c
+}
+
 func main() {
 	mlog.SetLevel(mlog.Silent)
 	cfg := hx.ParseFlags()
@@ -848,6 +1028,12 @@ func main() {
 		switch c.kind {
 		case "DIR":
 			return runDirect(c)
+		case "CON":
+			rounds := 60
+			if cfg.Thorough() {
+				rounds = 300
+			}
+			return runConcurrent(c, rounds)
 		case "PRX":
 			out := getRig().run(c)
 			if len(out) > 0 && strings.HasPrefix(out[0], "IOERR") {
@@ -861,14 +1047,43 @@ func main() {
 		return []string{"BADCASE"}
 	}
 
+	// -extra conconly: the side run under the Go race detector (meta race_quick_extra):
+	// only the concurrent batches, no corpus
+	concOnly := cfg.Extra == "conconly"
 	pre, replayOnly := cfg.Inputs()
 	for _, c := range pre {
+		if concOnly && !replayOnly {
+			break
+		}
 		cfg.Emit(hx.Case{Name: c.Name, In: c.In, Out: runIn(c.In)})
 	}
 	if replayOnly {
 		return
 	}
 	rng := hx.NewRNG(cfg.Seed)
+	nc := 40
+	if cfg.Thorough() {
+		nc = 400
+	}
+	if concOnly {
+		rng = hx.NewRNG(cfg.Seed ^ 0x5eed)
+		nc = 12
+		if cfg.Thorough() {
+			nc = 60
+		}
+	}
+	for i := 0; i < nc; i++ {
+		r := rng.Fork()
+		in := genBatch(r, cfg).tokens()
+		name := fmt.Sprintf("con%d", i)
+		if concOnly {
+			name = fmt.Sprintf("racecon%d", i)
+		}
+		cfg.Emit(hx.Case{Name: name, In: in, Out: runIn(in)})
+	}
+	if concOnly {
+		return
+	}
 	nd, np := 4000, 250
 	if cfg.Thorough() {
 		nd, np = 120000, 6000
